@@ -11,6 +11,11 @@ class Monitor(object):
         self.cfg = cfg
         self.validated = 0
         self.opts = {i + 1: n.get("preempt", False) for i, n in enumerate(cfg["nodes"])}
+        self.sched = {}
+        for i, n in enumerate(cfg["nodes"]):
+            c = n.get("c")
+            if isinstance(c, dict) and "sched" in c and c["sched"].get("preempt"):
+                self.sched[i + 1] = (oracles.timetable_of(n), c["sched"]["preempt"])
         self.planned = {}     # (node, id) -> (start, end) seen at the last boundary
         self.samples = {}     # (node, id) -> [(t, value)]
         self.reroute_target = {}
@@ -72,6 +77,9 @@ class Monitor(object):
                     self.planned[(nid, ind.id_number)] = (ind.service_start_date, ind.service_end_date)
         for ind, r in self.hub.new_records():
             opt = self.opts.get(r.node)
+            if r.node in self.sched and r.record_type == "service":
+                self.visit(ind, r, opt)
+                continue
             if not opt:
                 continue
             key = (r.node, r.id_number)
@@ -100,6 +108,15 @@ class Monitor(object):
         inter = [x for x in recs if x.record_type == "interrupted service"]
         if not inter:
             return
+        if r.node in self.sched:
+            # mechanism of every interruption of this visit: at a shift boundary the schedule's option applies
+            tt, sopt = self.sched[r.node]
+            kinds = set(sopt if tt.is_boundary(x.exit_date) else opt for x in inter)
+            if len(kinds) != 1 or None in kinds or False in kinds:
+                return           # mixed mechanisms in one visit: no single identity applies
+            opt = kinds.pop()
+            if any(b.is_blocked for b in [ind]) or opt == "reroute":
+                return
         self.hub.flags.add("visit_with_interruption")
         smp = [(t, v) for (t, v) in self.samples.get((r.node, r.id_number), []) if r.arrival_date <= t <= r.exit_date]
         ctx = {"id": r.id_number, "node": r.node, "option": opt, "samples": smp,
@@ -197,6 +214,12 @@ def ties_and_disciplines(tier, fam="F-preempt"):
             out.append(cfg("%s c=2 %s" % (opt, disc), fam, [node(c=2, preempt=opt, discipline=disc)],
                            {"A": klass([[0.5, 0.25]], [[3.0, 5.0]], prio=1), "B": klass([{"values": [4.0, 6.0], "budget": 1}], [[0.5, 1.0]], prio=0)},
                            K=4 if tier == "quick" else 5, T=24.0, D=5 if tier == "quick" else 8, features=["preempt_prio", opt, disc]))
+    # a node with BOTH pre-emption mechanisms and different options (C10/C12 also run these)
+    for sopt, popt in (("resume", "restart"), ("restart", "resume"), ("resample", "resume")):
+        out.append(cfg("sched %s + prio %s" % (sopt, popt), fam,
+                       [node(c={"sched": {"numbers": [1, 0], "ends": [2.0, 3.0], "preempt": sopt}}, preempt=popt)],
+                       {"A": klass([{"values": [0.5, 1.0], "budget": 2}], [[3.0, 2.0]], prio=1), "B": klass([{"values": [4.5, 1.25], "budget": 1}], [[0.5, 1.0]], prio=0)},
+                       K=2, T=20.0, features=["preempt_prio", "preempt_sched", "mixed_options"]))
     return out
 
 
